@@ -17,9 +17,12 @@ VARIABLES
             \* time; tc = that node's term when the entry was first seen covered
   elected,  \* set of <<term, node>> : node was leader in term at some time
   granted,  \* set of <<voter, term, candidate>> : voter's votedFor was candidate in term at some time
+  maxTerm,  \* node -> highest term it ever held (survives restarts)
+  ackIdx,   \* node -> highest log index it acknowledged to a leader (success reply sent) or, as leader, committed
+  preCrash, \* node -> [log, ack] it had when its process last died (Nil while it runs undisturbed since start-up)
   lastTick  \* the node whose tick produced this state, or Nil (set by the wrappers: CoreMC, CoreSim, CoreTrace)
 
-gvars == <<G, CG, elected, granted, lastTick>>
+gvars == <<G, CG, elected, granted, maxTerm, ackIdx, preCrash, lastTick>>
 
 Live(n) == node[n].alive
 IsVoter(n) == n \notin Observers
@@ -28,16 +31,42 @@ HistPairs(s) == {<<s.hist[k][1], s.hist[k][2]>> : k \in 1..Len(s.hist)}
 CommittedOf(s) == {<<s.log[k].idx, s.log[k].term, s.log[k].cmd, s.term>> : k \in {k2 \in 1..Len(s.log) : s.log[k2].idx <= s.commit}}
 Key3(p) == <<p[1], p[2], p[3]>>
 
+MaxOf(S) == CHOOSE v \in S : \A w \in S : w <= v
+(* what node n has acknowledged by the next state: success replies it put on the wire, its commit index as leader *)
+AckOf(n) ==
+  {chan'[n][j][k].next - 1 : <<j, k>> \in {<<j2, k2>> \in Nodes \X (1..8) :
+        k2 <= Len(chan'[n][j2]) /\ chan'[n][j2][k2].t = "nni" /\ chan'[n][j2][k2].success}}
+  \cup (IF node'[n].role = "L" THEN {node'[n].commit} ELSE {})
+
 GOf(nd) == UNION {HistPairs(nd[n]) : n \in {m \in Nodes : nd[m].alive}}
 CGOf(nd) == UNION {CommittedOf(nd[n]) : n \in {m \in Nodes : nd[m].alive}}
 ElectedOf(nd) == {<<nd[n].term, n>> : n \in {m \in Nodes : nd[m].alive /\ nd[m].role = "L"}}
 GrantedOf(nd) == {<<n, nd[n].term, nd[n].votedFor>> : n \in {m \in Nodes : nd[m].alive /\ nd[m].votedFor # Nil}}
 
-GInit == /\ lastTick = Nil /\ G = GOf(node) /\ CG = {<<1, 0, NoopCmd, 0>>} /\ elected = ElectedOf(node) /\ granted = GrantedOf(node)
-GNext == /\ G' = G \cup GOf(node')
-         /\ CG' = LET have == {Key3(p) : p \in CG} IN CG \cup {p \in CGOf(node') : Key3(p) \notin have}
+GInit == /\ lastTick = Nil /\ maxTerm = [n \in Nodes |-> 0] /\ ackIdx = [n \in Nodes |-> 0]
+         /\ preCrash = [n \in Nodes |-> [has |-> FALSE]] /\ G = GOf(node) /\ CG = {<<1, 0, NoopCmd, 0>>} /\ elected = ElectedOf(node) /\ granted = GrantedOf(node)
+(* extra: states a process went through INSIDE the step and that are no longer visible afterwards (the state *)
+(* of a process at the moment it was killed in the middle of a step); records with hist, log, commit, term     *)
+GNextWith(extra) ==
+         /\ G' = G \cup GOf(node') \cup UNION {HistPairs(s) : s \in extra}
+         /\ CG' = LET have == {Key3(p) : p \in CG}
+                      new == CGOf(node') \cup UNION {CommittedOf(s) : s \in extra}
+                  IN CG \cup {p \in new : Key3(p) \notin have}
          /\ elected' = elected \cup ElectedOf(node')
          /\ granted' = granted \cup GrantedOf(node')
+         /\ maxTerm' = [n \in Nodes |-> IF node'[n].alive /\ node'[n].term > maxTerm[n] THEN node'[n].term ELSE maxTerm[n]]
+         /\ ackIdx' = [n \in Nodes |->
+               IF ~node'[n].alive THEN ackIdx[n]
+               ELSE MaxOf({ackIdx[n]} \cup AckOf(n))]
+         /\ preCrash' = [n \in Nodes |->
+               IF node[n].alive /\ ~node'[n].alive
+               THEN [has |-> TRUE, log |-> node[n].log, ack |-> ackIdx[n],
+                     \* the process died in a tick of its own that had a finished serialization to acknowledge
+                     trimming |-> (lastTick' = n /\ node[n].serPid = -1),
+                     jlog |-> IF "disk" \in DOMAIN node'[n] THEN node'[n].disk.jlog ELSE <<>>]
+               ELSE IF node'[n].alive /\ ~node'[n].needLoad THEN [has |-> FALSE]
+               ELSE preCrash[n]]
+GNext == GNextWith({})
 
 -----------------------------------------------------------------------------
 (* C01 *)
@@ -67,6 +96,9 @@ AtMostOnceApplied == \A p, q \in G : p[2] = q[2] => p[1] = q[1]
 ElectionSafety == \A a, b \in elected : a[1] = b[1] => a[2] = b[2]
 OneVotePerTerm == \A a, b \in granted : (a[1] = b[1] /\ a[2] = b[2]) => a[3] = b[3]
 
+(* C07: a journaled node never falls back to a term older than one it already acknowledged *)
+NoOlderTerm == Journal => \A n \in Nodes : Live(n) => node[n].term >= maxTerm[n]
+
 (* C04 *)
 CommittedStable == \A p, q \in CG : p[1] = q[1] => Key3(p) = Key3(q)
 (* positional access; LogContiguous makes it meaningful *)
@@ -79,7 +111,8 @@ LogMatching ==
         hi == Min(Last(sa.log).idx, Last(sb.log).idx)
         M == {i \in lo..hi : EntryAt(sa, i).term = EntryAt(sb, i).term}
     IN \A i \in M : \A i2 \in lo..i : EntryAt(sa, i2) = EntryAt(sb, i2)
-CommittedNotBeyondLog == \A n \in Nodes : Live(n) => node[n].applied <= node[n].commit
+(* (a restarted node reads a commit index from .meta that may lag behind the snapshot it loads) *)
+CommittedNotBeyondLog == Journal \/ \A n \in Nodes : Live(n) => node[n].applied <= node[n].commit
 NoEscape == nexc = 0
 
 (* C09 *)
@@ -93,7 +126,7 @@ SnapshotAtPosition ==
 TransferIntegrity == \A n \in Nodes : Live(n) => node[n].snap # "garbage"
 (* what a node holds after compaction / installation is consistent with its own log and state *)
 HeldSnapshotConsistent ==
-  \A n \in Nodes : (Live(n) /\ node[n].snap \in DOMAIN snaps) =>
+  \A n \in Nodes : (Live(n) /\ ~node[n].needLoad /\ node[n].snap \in DOMAIN snaps) =>
      LET c == snaps[node[n].snap] IN c.last.idx <= node[n].applied
 
 (* C12: a raising command is passed over by every replica: whoever has applied past its position holds *)
@@ -149,7 +182,8 @@ StateViolations ==
 \cup (IF FailureMeansNeverApplied THEN {} ELSE {"C02.FailureMeansNeverApplied"})
 \cup (IF AtMostOnceApplied THEN {} ELSE {"C02.AtMostOnceApplied"})
 \cup (IF ElectionSafety THEN {} ELSE {"C03.ElectionSafety"})
-\cup (IF OneVotePerTerm THEN {} ELSE {"C03.OneVotePerTerm"})
+\cup (IF OneVotePerTerm THEN {} ELSE {"C03.OneVotePerTerm", "C07.OneVotePerTerm"})
+\cup (IF NoOlderTerm THEN {} ELSE {"C07.NoOlderTerm"})
 \cup (IF CommittedStable THEN {} ELSE {"C04.CommittedStable"})
 \cup (IF LogContiguous THEN (IF LogMatching THEN {} ELSE {"C04.LogMatching"}) ELSE {"C04.LogContiguous"})
 \cup (IF CommittedNotBeyondLog THEN {} ELSE {"C04.AppliedWithinCommit"})
@@ -177,8 +211,11 @@ HistAppendOnly ==
      /\ SubSeq(node'[n].hist, 1, Len(node[n].hist)) = node[n].hist
 
 VotersOf(nd, n) == nd[n].others \cup (IF IsVoter(n) THEN {n} ELSE {})
-Holds(s, e) == \/ \E k \in 1..Len(s.log) : s.log[k] = e
-               \/ e.idx < s.log[1].idx          \* compacted away (only applied entries are)
+HoldsLog(lg, e) == \/ \E k \in 1..Len(lg) : lg[k] = e
+                   \/ (lg # <<>> /\ e.idx < lg[1].idx)     \* compacted away (only applied entries are)
+(* a node stores an entry in its log; a crashed journaled node in its journal file *)
+Holds(s, e) == IF s.alive THEN HoldsLog(s.log, e)
+               ELSE ("disk" \in DOMAIN s) /\ HoldsLog(s.disk.jlog, e)
 (* C04: at the very step a commit index advances, a majority of the voters stores every newly     *)
 (* committed entry, and (for a leader) the highest one carries its current term                   *)
 CommitIsQuorumBacked ==
@@ -188,7 +225,7 @@ CommitIsQuorumBacked ==
          \* the member view the decision was taken with: a tick advances the commit index before it appends
          \* (and thereby enacts) membership entries, a follower after it
          Backed(V) == \E Q \in SUBSET V : /\ 2 * Cardinality(Q) > Cardinality(V)
-                                          /\ \A m \in Q : node'[m].alive /\ \A e \in newE : Holds(node'[m], e)
+                                          /\ \A m \in Q : \A e \in newE : Holds(node'[m], e)
      IN /\ Backed(VotersOf(node, n)) \/ Backed(VotersOf(node', n))
         /\ (s.role = "L" /\ newE # {}) => \E e \in newE : e.idx = s.commit /\ e.term = s.term
 
@@ -213,6 +250,26 @@ RemovedIsInert ==
   \A n \in Nodes : (node'[n].alive /\ node'[n].role = "L" /\ ~(node[n].alive /\ node[n].role = "L")) =>
      ~RemovedCommitted(n)
 
+(* C06: when a restarted journaled node has finished its start-up (dump loaded, journal kept or rebuilt) it *)
+(* holds every committed entry it had acknowledged before it died - in its log or covered by its snapshot    *)
+AckedLost(n) ==
+  IF preCrash[n].has /\ node'[n].alive /\ ~node'[n].needLoad /\ node[n].alive /\ node[n].needLoad
+  THEN {k \in 1..Len(preCrash[n].log) :
+          LET e == preCrash[n].log[k] IN
+          /\ e.idx <= preCrash[n].ack /\ \E p \in CG : Key3(p) = <<e.idx, e.term, e.cmd>>
+          /\ ~HoldsLog(node'[n].log, e)}
+  ELSE {}
+AckedDurable == \A n \in Nodes : AckedLost(n) = {}
+(* signature of known finding KF2: the process was killed inside FileJournal.deleteEntriesTo (clear, then    *)
+(* re-add the kept entries one by one): the journal on disk is a proper prefix of the entries that were to  *)
+(* be kept after a head drop                                                                                 *)
+HeadDropSig(n) ==
+  LET L == preCrash[n].log
+      d == preCrash[n].jlog
+  IN preCrash[n].trimming /\
+     \E k \in 1..Len(L) : /\ Len(d) < Len(L) - k + 1
+                           /\ \A q \in 1..Len(d) : d[q] = L[k + q - 1]
+
 (* C03: terms never decrease while a node runs *)
 TermMonotone == \A n \in Nodes : BothLive(n) => node'[n].term >= node[n].term
 
@@ -220,7 +277,11 @@ TermMonotone == \A n \in Nodes : BothLive(n) => node'[n].term >= node[n].term
 ApplyProgress ==
   lastTick' # Nil =>
      LET n == lastTick' IN
-     BothLive(n) => node'[n].applied = node'[n].commit
+     BothLive(n) => node'[n].applied >= node'[n].commit
+(* signature of known finding KF4: journal file without dump file - after a restart the entries compacted out *)
+(* of the journal are gone and nothing can rebuild the state they produced                                     *)
+NoDumpSig == Journal /\ ~DumpFile /\ lastTick' # Nil /\ node'[lastTick'].alive
+             /\ node'[lastTick'].applied + 1 < node'[lastTick'].log[1].idx
 
 StepViolations ==
      (IF MonotoneIndices THEN {} ELSE {"C04.MonotoneIndices"})
@@ -228,7 +289,9 @@ StepViolations ==
 \cup (IF CommitIsQuorumBacked THEN {} ELSE {"C04.CommitIsQuorumBacked"})
 \cup (IF LeaderCompleteness THEN {} ELSE {"C03.LeaderCompleteness"})
 \cup (IF TermMonotone THEN {} ELSE {"C03.TermMonotone"})
-\cup (IF ApplyProgress THEN {} ELSE {"C12.ApplyProgress"})
+\cup (IF ApplyProgress THEN {} ELSE IF NoDumpSig THEN {"C06.RecoveredStateProgress#KF4"} ELSE {"C12.ApplyProgress", "C06.RecoveredStateProgress"})
 \cup (IF ElectionQuorum THEN {} ELSE {"C03.ElectionQuorum"})
 \cup (IF RemovedIsInert THEN {} ELSE {"C10.RemovedIsInert"})
+\cup (IF AckedDurable THEN {}
+      ELSE IF \A n \in Nodes : AckedLost(n) # {} => HeadDropSig(n) THEN {"C06.AckedDurable#KF2"} ELSE {"C06.AckedDurable"})
 =============================================================================
